@@ -113,6 +113,10 @@ def shapes(tier):
     out.append({'initial': INITIAL, 'deviations': d1, 'early': False,
                 'script': [('sub', 0, 'A'), (('when', 'daemon:getrawtransactions', 1), ('block', cbB)),
                            (('when', 'daemon:getrawtransactions', 1), ('poll',)), ('mp_add', 'm1', 1, 'A')]})
+    # a mempool transaction for the script arrives (and may be refreshed and notified) while the subscription's
+    # history read is in flight
+    out.append({'initial': INITIAL, 'deviations': d1, 'early': False,
+                'script': [(('when', 'db:read_history', 1), ('mp_add', 'm1', 1, 'A')), ('sub', 0, 'A')]})
     if tier == 'thorough':
         for s in list(out):
             out.append(dict(s, deviations=2, window=10))
@@ -138,7 +142,7 @@ KERNELS = [
                     'electrumx/server/block_processor.py:BlockProcessor.fetch_and_process_blocks', 'on_caught_up',
                     'advance_blocks', 'reorg_chain', 'electrumx/server/mempool.py:MemPool._refresh_hashes',
                     '_process_mempool'],
-           bounds='11 (quick) / 25 (thorough) scripted stories of 3..6 external events on a 4-block start; chain content '
+           bounds='12 (quick) / 27 (thorough) scripted stories of 3..6 external events on a 4-block start; chain content '
                   'concrete; interleaving: FIFO plus 1 (quick) / 2 within a 10..14-step window (thorough) deviations, '
                   'each one of: postpone a pending gate (daemon reply, thread job start, thread result delivery, block '
                   'fetch) for one full round of timers (poll + mempool refresh), fire a timer early, inject the next scripted event early',
